@@ -101,3 +101,14 @@ Example C08_foreign_then_own_example :
             /\ m_uid m = r_unit rq_big /\ m_fc m = Z.lor (r_fc rq_big) 128.
 Proof. exact foreign_then_own_example. Qed.
 Print Assumptions C08_foreign_then_own_example.
+
+(* isError(): an exception response (request's function code + 0x80) answers True, a normal response False — for every
+   function code 1..127 — and exactly the codes above 0x80 answer True (generated from pdu.ModbusResponse.isError) *)
+Theorem C08_is_error_iff_exception : forall fc, 1 <= fc <= 127 ->
+  is_error_fc code (Z.lor fc 128) = true /\ is_error_fc code fc = false.
+Proof. exact is_error_iff_exception. Qed.
+Print Assumptions C08_is_error_iff_exception.
+
+Theorem C08_is_error_exact : forall fc, is_error_fc code fc = (fc >? 128).
+Proof. exact is_error_fc_exact. Qed.
+Print Assumptions C08_is_error_exact.
